@@ -191,7 +191,8 @@ pub fn sample<T: Elem>(ctx: &mut Ctx, call: &VecCall<T>) {
 pub fn target_lengths<T: Elem>(t: &Target<T>) -> Vec<usize> {
     match t.r.dims {
         Some(d) => vec![d],
-        None => vals::smart_lengths(t.lane, &[]),
+        // plus three lengths beyond any block-size threshold a kernel might switch on
+        None => vals::smart_lengths(t.lane, &[2047, 2049, 4099]),
     }
 }
 
